@@ -456,6 +456,7 @@ def run(cfg):
         FZ = np.array([_val(ref(z)) for z in Z])
     dirs = _dirs(n)
     first = {}
+    layout = S.has_layout(info.space)
     X, P = [], []
     evals = 0
     sigs = set()
@@ -469,6 +470,20 @@ def run(cfg):
             evals += 1
             continue
         evals += 1
+        if layout:
+            # the same x wrapping a Fortran-ordered array (entry-wise code that flattens its
+            # operands must not depend on the memory layout)
+            try:
+                pf = S.to_flat(prox(S.from_flat_F(info.space, x))).astype(float)
+                evals += 1
+                if not np.array_equal(pf, p, equal_nan=True):
+                    first.setdefault('prox_depends_on_memory_layout_of_x',
+                                     'x=%s sigma=%s: prox=%s for C-ordered x, %s for the same x '
+                                     'wrapping a Fortran-ordered array'
+                                     % (x.tolist(), cfg['sigma'], p.tolist(), pf.tolist()))
+            except Exception as e:
+                first.setdefault('raises_for_fortran_ordered_x:' + type(e).__name__,
+                                 'x=%s: %r' % (x.tolist(), e))
         if not np.all(np.isfinite(p)):
             first.setdefault('prox_not_finite', 'x=%s sigma=%s prox=%s'
                              % (x.tolist(), cfg['sigma'], p.tolist()))
